@@ -28,22 +28,30 @@ class _Sock:
 
 
 class _Loop:
+    """deliveries: the arguments handed to Dispatcher.process, through call_soon (FIFO) or by a direct call"""
+
     def __init__(self):
         self.calls = []
+        self.routes = set()
 
     def call_soon(self, f, *a):
         self.calls.append(a)
+        self.routes.add("soon")
+
+    def direct(self, *a):
+        self.calls.append(a)
+        self.routes.add("direct")
 
 
 def poll(frames, prefix=b"", strict=False, deserializer=pickle.loads):
     d = object.__new__(RemoteDispatcher)
     d._prefix, d._strict, d._socket, d.loop, d._deserializer = prefix, strict, _Sock(frames), _Loop(), deserializer
-    d.process = lambda name, doc: None
+    d.process = d.loop.direct
     try:
         asyncio.run(d._poll())
         end = "returned"
     except _Done:
-        end = "consumed all frames"
+        end = "consumed all frames" if len(d.loop.routes) < 2 else "mixed delivery routes (order not kept)"
     except Bluesky0MQDecodeError:
         end = "Bluesky0MQDecodeError"
     except Exception as e:           # noqa
@@ -57,6 +65,50 @@ def publish(prefix, docs, serializer=pickle.dumps):
     for n, doc in docs:
         p(n, doc)
     return p._socket.sent
+
+
+def model_bytes(model, key):
+    if key not in model:
+        return None
+    b = string(model[key]).encode("latin-1", "replace")
+    return None if b" " in b else b
+
+
+def other_prefixes(pp):
+    """space-free byte strings different from pp, in every position relative to it (shorter, longer, sharing head / tail)"""
+    cand = [b"zzz", pp + b"x", pp + b"2", pp + b"_test", b"x" + pp, pp[:-1], pp[1:], pp[:1], pp[-1:], pp + pp, pp[::-1], pp.swapcase(), b"\x00", pp + b"\x00",
+            pp + b"\n", b"\t"]
+    out = []
+    for c in cand:
+        if c and c != pp and b" " not in c and c not in out:
+            out.append(c)
+    return out
+
+
+# ----------------------------------------------------------------------------- malformed frames
+class _Unrelated(Exception):
+    """an exception class of the deserializer's own"""
+
+
+def _raiser(cls):
+    def deserializer(b):
+        if cls is UnicodeDecodeError:
+            raise UnicodeDecodeError("utf-8", b"\xff", 0, 1, "deserializer failure")
+        raise cls("deserializer failure")
+    return deserializer
+
+
+class _Gone:
+    pass
+
+
+def _missing_class_pickle():
+    data = pickle.dumps(_Gone())
+    return data.replace(b"_Gone", b"_Lost")            # names a class the receiving process does not have
+
+
+def _missing_module_pickle():
+    return pickle.dumps(_Gone()).replace(b"replay.zmqframes", b"replay.zmqframez")     # same length: the pickle stays well-formed
 
 
 def well_formed(frame, deserializer):
@@ -76,61 +128,93 @@ def well_formed(frame, deserializer):
     return True
 
 
-def check_frame(frame, strict, deserializer, problems):
-    end, calls, left = poll([frame, b" start " + pickle.dumps({"uid": "after"})], strict=strict, deserializer=deserializer)
-    wf = well_formed(frame, deserializer)
-    tag = f"frame {frame[:60]!r} strict={strict}"
-    if wf:
-        if end != "consumed all frames" or len(calls) != 2:
-            problems.append(f"{tag}: well-formed frame -> {end}, {len(calls)} deliveries")
+def check_frame(frame, strict, deserializer, problems, prefix=b"", dname=""):
+    """the clause of the obligation on one frame: [frame, a good frame for this dispatcher]"""
+    after = {"uid": "after"}
+    good = lambda b: after if b == b"<after>" else deserializer(b)      # noqa: E731
+    end, calls, left = poll([frame, prefix + b" stop <after>"], prefix=prefix, strict=strict, deserializer=good)
+    parts = frame.split(b" ", 2)
+    wf = well_formed(frame, good)
+    foreign = len(parts) == 3 and bool(prefix) and parts[0] != prefix
+    tag = f"frame {frame[:60]!r} dispatcher prefix={prefix!r} strict={strict} deserializer={dname or getattr(deserializer, '__name__', deserializer)}"
+    last_ok = bool(calls) and tuple(calls[-1]) == (DocumentNames.stop, after)
+    if wf and not foreign:
+        want = (DocumentNames[parts[1].decode()], good(parts[2]))
+        if end != "consumed all frames" or len(calls) != 2 or tuple(calls[0]) != want or not last_ok:
+            problems.append(f"{tag}: well-formed frame -> {end}, {len(calls)} deliveries {calls!r}")
+    elif foreign:
+        if end == "consumed all frames":
+            if len(calls) != 1 or not last_ok:
+                problems.append(f"{tag}: frame of another publisher -> {len(calls)} deliveries {calls!r}")
+        elif not (strict and not wf and end == "Bluesky0MQDecodeError" and not calls):
+            problems.append(f"{tag}: frame of another publisher -> {end}, {len(calls)} deliveries, {left} frames unread")
     elif strict:
         if end != "Bluesky0MQDecodeError" or calls:
             problems.append(f"{tag}: malformed frame in strict mode -> {end}, {len(calls)} deliveries (expected Bluesky0MQDecodeError, none)")
     else:
-        if end != "consumed all frames" or len(calls) != 1:
+        if end != "consumed all frames" or len(calls) != 1 or not last_ok:
             problems.append(f"{tag}: malformed frame in non-strict mode -> {end}, {len(calls)} deliveries, {left} frames unread "
                             "(expected: dropped, the following frame delivered)")
 
 
-BATTERY = [b"", b"nospace", b"one space", b"  ", b"p  x", b"p \xff\xfe x", b"p nosuchdoc " + pickle.dumps({}), b"p start notapickle",
-           b"p start " + pickle.dumps({"uid": "u"}), b" event " + pickle.dumps({"a b": " c  d "})]
+def battery():
+    good = pickle.dumps({"uid": "u"})
+    return [b"", b"nospace", b"one space", b"  ", b"p  x", b"p \xff\xfe x", b"p nosuchdoc " + good, b"p start notapickle",
+            b"p start " + good, b" event " + pickle.dumps({"a b": " c  d "}), b"p start ", b"p start \x80\x04", b"p start " + good[:-3],
+            b"p event " + _missing_class_pickle(), b"p event " + _missing_module_pickle(), b"pq start " + good, b"pq start notapickle",
+            b"p START " + good, b"p start" + good, b" start " + good, b"p\tstart\t" + good, b"p start " + b"x y" * 1000, b"p stop " + b"\x80" * 1025]
 
 
 def malformed(model, info, art):
     problems = []
-    frames = []
+    dprefixes = [b"", b"p"]
+    dp = model_bytes(model, "disp_prefix")
+    if dp:
+        dprefixes.append(dp)
+    deserializers = [("pickle.loads", pickle.loads)] + [(f"raises {c.__name__}", _raiser(c)) for c in
+                                                        (_Unrelated, ValueError, KeyError, UnicodeDecodeError, EOFError, AttributeError, ModuleNotFoundError,
+                                                         TypeError, pickle.UnpicklingError, IndexError, MemoryError)]
+    frames = battery()
     if "message" in model:
-        frames.append(string(model["message"]).encode("latin-1", "replace"))
-    ok = boolean(model.get("payload_deserializes"), True)
-    for fr in frames:
-        for strict in (False, True):
-            check_frame(fr, strict, (lambda b: ("deserialized", b)) if ok else pickle.loads, problems)
-    for fr in BATTERY:
-        for strict in (False, True):
-            check_frame(fr, strict, pickle.loads, problems)
-    return ("confirmed" if problems else "contradicted"), "; ".join(problems) or "malformed frames are dropped / raise in strict mode; nothing delivered"
+        frames.insert(0, string(model["message"]).encode("latin-1", "replace"))
+        if boolean(model.get("payload_deserializes"), True):
+            deserializers.insert(0, ("accepts", lambda b: ("deserialized", b)))
+    for prefix in dprefixes:
+        for fr in frames:
+            for strict in (False, True):
+                for dname, des in deserializers:
+                    check_frame(fr, strict, des, problems, prefix=prefix, dname=dname)
+    return ("confirmed" if problems else "contradicted"), "; ".join(problems[:12]) or "malformed frames are dropped / raise in strict mode; nothing delivered"
+
+
+# ----------------------------------------------------------------------------- round trip / histories
+DOCS = [("start", {"uid": "a b", "x": b" \x00 "}), ("descriptor", {"uid": "d", "data_keys": {" ": 1}}), ("event", {"uid": "e", "data": {"s": "  "}}),
+        ("stream_datum", {"uid": "sd"}), ("stop", {"uid": "s"})]
 
 
 def roundtrip(model, info, art):
     problems = []
-    docs = [("start", {"uid": "a b", "x": b" \x00 "}), ("descriptor", {"uid": "d", "data_keys": {" ": 1}}), ("event", {"uid": "e", "data": {"s": "  "}}),
-            ("stream_datum", {"uid": "sd"}), ("stop", {"uid": "s"})]
-    prefixes = [b"", b"abc", b"\xff\x00"]
-    if "pub_prefix" in model:
-        p = string(model["pub_prefix"]).encode("latin-1", "replace")
-        if b" " not in p:
-            prefixes.append(p)
+    docs = DOCS + [(n, {"uid": n, "pad": " " * k}) for k, n in enumerate(DocumentNames.__members__)]
+    prefixes = [b"", b"abc", b"\xff\x00", b"sb"]
+    p = model_bytes(model, "pub_prefix")
+    if p is not None:
+        prefixes.insert(0, p)
     for pp in prefixes:
         frames = publish(pp, docs)
-        others = [b"zzz"] + ([string(model["disp_prefix"]).encode("latin-1", "replace")] if "disp_prefix" in model else [])
+        if len(frames) != len(docs):
+            problems.append(f"publisher prefix {pp!r}: {len(frames)} frames sent for {len(docs)} documents")
+            continue
+        others = other_prefixes(pp)
+        dp = model_bytes(model, "disp_prefix")
+        if dp:
+            others.insert(0, dp)
         for dp in [b"", pp] + others:
-            if b" " in dp:
-                continue
             for strict in (False, True):
                 end, calls, left = poll(frames, prefix=dp, strict=strict)
                 want = [(DocumentNames[n], d) for n, d in docs] if (not dp or dp == pp) else []
                 if end != "consumed all frames" or [tuple(c) for c in calls] != want:
-                    problems.append(f"publisher prefix {pp!r}, dispatcher prefix {dp!r}, strict={strict}: {end}, delivered {calls!r}")
+                    problems.append(f"publisher prefix {pp!r}, dispatcher prefix {dp!r}, strict={strict}: {end}, delivered {len(calls)} documents "
+                                    f"(expected {len(want)}): {calls[:3]!r}")
     for cls, kw in ((Publisher, {}), (RemoteDispatcher, {})):
         for bad in ("text", b"a b"):
             try:
@@ -138,4 +222,96 @@ def roundtrip(model, info, art):
                 problems.append(f"{cls.__name__} accepted prefix {bad!r}")
             except ValueError:
                 pass
-    return ("confirmed" if problems else "contradicted"), "; ".join(problems) or "documents delivered intact, in order, filtered by prefix"
+    return ("confirmed" if problems else "contradicted"), "; ".join(problems[:12]) or "documents delivered intact, in order, filtered by prefix"
+
+
+class _FakeZmq:
+    PUB, SUB, SUBSCRIBE = 1, 2, 6
+
+    class Context:
+        def socket(self, kind):
+            return _FakeZmq.Socket()
+
+        def destroy(self):
+            pass
+
+    class Socket(_Sock):
+        def __init__(self):
+            super().__init__([])
+
+        def connect(self, url):
+            pass
+
+        def close(self):
+            pass
+
+
+def constructed(model, info, art):
+    """objects built by the real constructors behave as configured: serializer / deserializer / strict flag reach __call__ / _poll"""
+    problems = []
+    good = b"p start " + pickle.dumps({"uid": "u"})
+    for strict in (False, True, None):
+        kw = {} if strict is None else {"strict": strict}
+        d = RemoteDispatcher(("localhost", 1), prefix=b"p", zmq=_FakeZmq, zmq_asyncio=_FakeZmq, deserializer=lambda b: ("mine", pickle.loads(b)), **kw)
+        real_loop = d.loop
+        try:
+            d._socket, d.loop = _Sock([b"p start notapickle", good]), _Loop()
+            try:
+                asyncio.run(d._poll())
+                end = "returned"
+            except _Done:
+                end = "consumed all frames"
+            except Bluesky0MQDecodeError:
+                end = "Bluesky0MQDecodeError"
+            except Exception as e:           # noqa
+                end = f"{type(e).__name__}: {e}"
+            calls = [tuple(c[-2:]) for c in d.loop.calls]
+            want = ("Bluesky0MQDecodeError", []) if strict else ("consumed all frames", [(DocumentNames.start, ("mine", {"uid": "u"}))])
+            if (end, calls) != want:
+                problems.append(f"RemoteDispatcher(strict={strict}, deserializer=mine): {end}, delivered {calls!r}; expected {want!r}")
+        finally:
+            real_loop.close()
+    p = Publisher(("localhost", 1), prefix=b"p", zmq=_FakeZmq, serializer=lambda doc: b"<" + repr(sorted(doc.items())).encode() + b">")
+    p("start", {"uid": "u"})
+    if p._socket.sent != [b"p start <[('uid', 'u')]>"]:
+        problems.append(f"Publisher(serializer=mine) sent {p._socket.sent!r}")
+    return ("confirmed" if problems else "contradicted"), "; ".join(problems) or "constructed objects use the given serializer / deserializer / strict flag"
+
+
+def _short(call):
+    try:
+        n, d = call
+        return (getattr(n, "name", n), d.get("by") if isinstance(d, dict) else d)
+    except Exception:      # noqa
+        return call
+
+
+def history(model, info, art):
+    """two publishers interleave their documents on one proxy; every dispatcher (no prefix, A's prefix, B's prefix, a third one)
+    must deliver exactly the documents of its publisher, in arrival order"""
+    problems = []
+    pairs = [(b"sb", b"sb2"), (b"sb", b"not_sb"), (b"", b"a"), (b"ab", b"b"), (b"a", b"A"), (b"x\x00", b"x")]
+    pa, pb = model_bytes(model, "prefix_a"), model_bytes(model, "prefix_b")
+    if pa is not None and pb is not None and pa != pb:
+        pairs.insert(0, (pa, pb))
+    third = model_bytes(model, "disp_prefix")
+    for pa, pb in pairs:
+        da, db = [(n, dict(d, by="A")) for n, d in DOCS], [(n, dict(d, by="B")) for n, d in DOCS]
+        fa, fb = publish(pa, da), publish(pb, db)
+        if len(fa) != len(da) or len(fb) != len(db):
+            problems.append(f"publishers A={pa!r} B={pb!r}: {len(fa)} / {len(fb)} frames sent for {len(da)} / {len(db)} documents")
+            continue
+        for pattern in ("ABABABABAB", "AABBBABAAB", "BBBBBAAAAA", "BABAABABAB"):
+            ia, ib, frames, sent = iter(zip(fa, da)), iter(zip(fb, db)), [], []
+            for c in pattern:
+                f, (n, doc) = next(ia if c == "A" else ib)
+                frames.append(f)
+                sent.append((c, DocumentNames[n], doc))
+            for dp in [b"", pa, pb] + ([third] if third else []) + other_prefixes(pa)[:6]:
+                for strict in (False, True):
+                    end, calls, left = poll(frames, prefix=dp, strict=strict)
+                    want = [(n, d) for c, n, d in sent if not dp or dp == (pa if c == "A" else pb)]
+                    if end != "consumed all frames" or [tuple(c) for c in calls] != want:
+                        problems.append(f"publishers A={pa!r} B={pb!r} interleaved {pattern}, dispatcher prefix {dp!r}, strict={strict}: {end}, "
+                                        f"delivered {[_short(c) for c in calls]!r}, expected {[_short(c) for c in want]!r}")
+    return ("confirmed" if problems else "contradicted"), "; ".join(problems[:12]) or "each dispatcher delivered exactly its publisher's documents, in order"
